@@ -52,8 +52,10 @@ func c17DataOrder(u *nodelite.Universe, f *nodelite.File) []string {
 }
 
 func TestVerifC17(t *testing.T) {
-	names := []string{"A", "B", "D"}
-	letters := map[string]string{"A": "xy", "B": "xz", "D": "ww"}
+	// F=[x,y,x,z,w]: a data chunk repeated inside the file and followed by further distinct chunks — bit
+	// indices (distinct chunks, first-occurrence order) differ from positions in the file
+	names := []string{"A", "B", "D", "F"}
+	letters := map[string]string{"A": "xy", "B": "xz", "D": "ww", "F": "xyxzw"}
 	u, err := nodelite.BuildUniverse(names, letters)
 	if err != nil {
 		t.Fatalf("universe: %v", err)
@@ -73,12 +75,16 @@ func TestVerifC17(t *testing.T) {
 		{"delete(A)", "delete", "A", ""},
 		{"upload(B)", "upload", "B", ""},
 		{"delete(B)", "delete", "B", ""},
+		{"pyramid(F)", "pyramid", "F", ""}, // partial local presence of F: single data chunks fetched one by one
+		{"fetch(F,y)", "fetch-data", "F", "y"},
+		{"fetch(F,z)", "fetch-data", "F", "z"},
 	}
 	if thorough {
 		ops = append(ops,
 			c17Op{"pyramid(B)", "pyramid", "B", ""}, c17Op{"fetch(B,x)", "fetch-data", "B", "x"}, c17Op{"fetch(B,z)", "fetch-data", "B", "z"},
 			c17Op{"read(B,B.f)", "read-intermediate", "B", "B.f"}, c17Op{"upload(D)", "upload", "D", ""}, c17Op{"pyramid(D)", "pyramid", "D", ""},
-			c17Op{"fetch(D,w)", "fetch-data", "D", "w"}, c17Op{"delete(D)", "delete", "D", ""})
+			c17Op{"fetch(D,w)", "fetch-data", "D", "w"}, c17Op{"delete(D)", "delete", "D", ""},
+			c17Op{"fetch(F,x)", "fetch-data", "F", "x"}, c17Op{"fetch(F,w)", "fetch-data", "F", "w"}, c17Op{"upload(F)", "upload", "F", ""}, c17Op{"delete(F)", "delete", "F", ""})
 	}
 	var opNames []string
 	for _, o := range ops {
@@ -91,7 +97,7 @@ func TestVerifC17(t *testing.T) {
 	self := nodelite.SelfAddr.String()
 	mc.Run(t, mc.Config{ID: "C17", Name: "C17-availability-records", MaxDev: 1, Params: map[string]interface{}{
 		"crash_points": fmt.Sprintf("every delete may be interrupted after 0..%d state-store durability units (then restart); at most one crash per execution", c17MaxCrashUnits-1),
-		"depth": depth, "alphabet": opNames, "files": letters, "chunk_size": boson.ChunkSize, "capacity": 1000,
+		"depth": depth, "alphabet": opNames, "initial_states": "empty (depth steps) | upload(A), discover(A) (depth-1 steps)", "files": letters, "chunk_size": boson.ChunkSize, "capacity": 1000,
 		"checked_after_every_step": "self bit vector of every tracked file vs. local presence of its data chunks; isDownload; records of deleted files (tables, getters, raw state store keys)",
 	}}, func(x *mc.X) {
 		n, err := nodelite.New(nodelite.Options{Capacity: 1000, Universe: u})
@@ -181,7 +187,18 @@ func TestVerifC17(t *testing.T) {
 			}
 		}
 
-		for step := 0; step < depth; step++ {
+		// initial state: empty store (depth steps), or A uploaded and a discovery record about A received from
+		// a peer (depth-1 steps) — histories "interrupted delete, restart, re-upload, delete" then fit the bound
+		steps := depth
+		if x.Choose(2) == 1 {
+			steps = depth - 1
+			if c, _ := n.UploadAurora("A", u.ByName["A"].Data, false); c != 201 {
+				x.Broken("initial upload of A: %d", c)
+			}
+			n.CI.VerifOnChunkInfoResp(context.Background(), u.ByName["A"].Root, nodelite.PeerAddr, map[string][]byte{nodelite.PeerAddr.String(): {0x03}})
+			x.Logf("initial state: upload(A), discover(A)")
+		}
+		for step := 0; step < steps; step++ {
 			o := ops[x.Choose(len(ops))]
 			var out string
 			f := u.ByName[o.file]
@@ -272,7 +289,7 @@ func TestVerifC17(t *testing.T) {
 				ds = append(ds, f)
 			}
 			sort.Strings(ds)
-			if x.Seen(sk.Key()+"#"+ik+"#DEL:"+strings.Join(ds, ","), depth-step-1) {
+			if x.Seen(sk.Key()+"#"+ik+"#DEL:"+strings.Join(ds, ","), steps-step-1) {
 				return
 			}
 		}
